@@ -519,7 +519,7 @@ class PacketTransmitter(Elaboratable):
         # If we need to retry sending our packets, we'll need to reset our pending packet count.
         # Otherwise, we increment and decrement our "to send" counts normally.
         with m.If(self.retry_required):
-            m.d.ss += packets_to_send.eq(packets_awaiting_ack)
+            m.d.ss += packets_to_send.eq(packets_awaiting_ack + enqueue_send)
         with m.Elif(enqueue_send & ~dequeue_send):
             m.d.ss += packets_to_send.eq(packets_to_send + 1)
         with m.Elif(dequeue_send & ~enqueue_send):
@@ -605,6 +605,11 @@ class PacketTransmitter(Elaboratable):
         with m.If(self.retry_required):
             m.d.ss += retry_pending.eq(1)
 
+        # If another retry is requested while we're in the middle of retransmitting a packet, our read
+        # pointer and counter are set up anew; the packet in flight must not be counted as retransmitted.
+        retransmitting    = Signal()
+        retry_restarted   = Signal()
+
 
         with m.FSM(domain="ss"):
 
@@ -646,14 +651,26 @@ class PacketTransmitter(Elaboratable):
                 m.d.comb += packet_tx.header.delayed.eq(1)
                 m.d.comb += packet_tx.generate.eq(~self.lrty_pending)
 
+                with m.If(~self.lrty_pending):
+                    m.d.ss += retransmitting.eq(1)
+                with m.If(self.retry_required & (retransmitting | ~self.lrty_pending)):
+                    m.d.ss += retry_restarted.eq(1)
+
                 # We're done with this packet.
                 with m.If(packet_tx.done):
-                    m.d.comb += dequeue_send.eq(1)
+                    m.d.ss += [
+                        retransmitting   .eq(0),
+                        retry_restarted  .eq(0)
+                    ]
 
-                    # If this was the last packet to retransmit, we're done handling this LBAD.
-                    with m.If(packets_to_send == 1):
-                        m.d.ss += retry_pending.eq(0)
-                        m.next = "DISPATCH_PACKET"
+                    # If we received another LBAD in the meantime, we'll start over.
+                    with m.If(~retry_restarted & ~self.retry_required):
+                        m.d.comb += dequeue_send.eq(1)
+
+                        # If this was the last packet to retransmit, we're done handling this LBAD.
+                        with m.If(packets_to_send == 1):
+                            m.d.ss += retry_pending.eq(0)
+                            m.next = "DISPATCH_PACKET"
 
 
         #
@@ -798,6 +815,8 @@ class PacketTransmitter(Elaboratable):
                 write_pointer             .eq(0),
                 ack_pointer               .eq(0),
                 retry_pending             .eq(0),
+                retransmitting            .eq(0),
+                retry_restarted           .eq(0),
             ]
 
 
